@@ -3,8 +3,8 @@
 From Coq Require Import List Arith Bool NArith.
 From GV Require Import Base.Result Gen.TokenTypes Gen.Defs Gen.Instr Model.Parser Model.BuilderWL Model.Compile
   Spec.Depth Proofs.C05.Known Proofs.C05.Bounded Proofs.C06.Known Proofs.C06.DepthSound Proofs.C06.Dynamic
-  Proofs.C06.Bounded Proofs.C06.Bounded7 Proofs.C06.Refuted.
-From GV Require Import Proofs.C06.Statements.
+  Proofs.C06.Bounded Proofs.C06.Bounded7 Proofs.C06.Refuted Proofs.C06.Balanced Proofs.C06.BalancedBounded.
+From GV Require Import Proofs.C06.Statements Proofs.C06.StaticFull.
 Import ListNotations.
 
 (* ---- static half: the checker ---- *)
@@ -35,14 +35,36 @@ Theorem C06_static_small_bounded_7 : forall toks init,
 Proof. exact C06_static_small_bounded_7_proof. Qed.
 Print Assumptions C06_static_small_bounded_7.
 
-(* the full static statement (by induction on the tree through Model/Compile.v): not yet proved *)
-Definition C06_static_full_statement : Prop :=
-  forall nodes root t init lit r,
-    tree_of nodes root = Some t ->
-    ~ Excluded_C06 t -> ~ Known_C06_K1 t -> ~ Known_C06_K2 t -> ~ Known_C06_K3 t -> ~ Known_C06_K4 t ->
-    compile init lit t = Ok r ->
-    let p := prog_of init (ci (fst r)) (cj (fst r)) (snd r) in
-    exists d, typed p d /\ ends_at_one p d /\ exists e, pjump p (snd r) = Some e /\ d e = Some (0, 0).
+(* ---- static half: every tree, every initial state (by induction on the tree through Model/Compile.v) ---- *)
+(* [balanced t] (Proofs/C06/Balanced.v): every operand position of a construct
+   holds a subtree that leaves exactly one operand, every attachment position
+   one that leaves none, an else-chain is conditionals followed by one final
+   else, `^~` stands where no operand of its body is pending, there is no bare
+   `;;`.  The program the tree compiler builds from such a tree into any data
+   object is typable, every expression in it ends at operand depth one, and it
+   is entered at depth (0, 0). *)
+Theorem C06_static_full : forall init lit t r,
+  balanced t = true -> compile init lit t = Ok r ->
+  let p := prog_of init (ci (fst r)) (cj (fst r)) (snd r) in
+  exists d, typed p d /\ ends_at_one p d /\ exists e, pjump p (snd r) = Some e /\ d e = Some (0, 0).
+Proof. exact C06_static_full_proof. Qed.
+Print Assumptions C06_static_full.
+
+(* every accepted program without a bare `;;` and outside C06-K1..K4 keeps the
+   discipline (bounded: the trees the parser produces from these inputs) *)
+Theorem C06_balanced_covers_triples_bounded_3 : forall a b c, accepted_balanced [a; b; c].
+Proof. exact C06_balanced_covers_triples_bounded_3_proof. Qed.
+Print Assumptions C06_balanced_covers_triples_bounded_3.
+
+Theorem C06_balanced_covers_reduced_bounded_5 : forall toks,
+  length toks <= 5 -> (forall x, In x toks -> In x reduced_alphabet) -> accepted_balanced toks.
+Proof. exact C06_balanced_covers_reduced_bounded_5_proof. Qed.
+Print Assumptions C06_balanced_covers_reduced_bounded_5.
+
+Theorem C06_balanced_covers_small_bounded_7 : forall toks,
+  length toks = 7 -> (forall x, In x toks -> In x small_alphabet) -> accepted_balanced toks.
+Proof. exact C06_balanced_covers_small_bounded_7_proof. Qed.
+Print Assumptions C06_balanced_covers_small_bounded_7.
 
 (* ---- dynamic half: the abstract stack-depth machine ---- *)
 (* every reachable configuration of a typed program carries the typed depths,
